@@ -22,7 +22,7 @@ from ..vloop import VLoop
 
 ID = 'C19'
 MEMBERS = ('a', 'b', 'm', 's', 'f')
-FUTURE_STATES = ('pending', 'result', 'exception', 'cancelled')
+FUTURE_STATES = ('pending', 'result', 'exception', 'cancelled', 'result-savable')
 LOADER_MODES = ('default', 'global-custom', 'per-save-custom', 'per-save-custom+context', 'per-save-strict')
 
 
@@ -72,6 +72,8 @@ def make_future(state: str) -> persistence.SavableFuture:
         fut.exception()
     elif state == 'cancelled':
         fut.cancel()
+    elif state == 'result-savable':
+        fut.set_result(Inner(1))  # resolved with an object that is itself a Savable
     return fut
 
 
@@ -85,6 +87,8 @@ def future_status(fut: Any) -> Any:
     exc = fut.exception()
     if exc is not None:
         return ('exception', type(exc).__name__, exc.args)
+    if isinstance(fut.result(), persistence.Savable):
+        return ('result', type(fut.result()).__name__, repr(getattr(fut.result(), 'v', None)))
     return ('result', repr(fut.result()))
 
 
